@@ -17,15 +17,15 @@ import (
 var c08S = 60
 
 type clipRingEv struct {
-	K     string         `json:"k"`
-	Fn    string         `json:"fn"`
-	Box   [4]int         `json:"box"`
-	In    [][][][2]int   `json:"in"`
-	Out   [][][][2]int   `json:"out"`
-	Shape string         `json:"shape"`
-	St    int            `json:"st"`
-	NT    int            `json:"nt"`
-	S     int            `json:"s"`
+	K     string       `json:"k"`
+	Fn    string       `json:"fn"`
+	Box   [4]int       `json:"box"`
+	In    [][][][2]int `json:"in"`
+	Out   [][][][2]int `json:"out"`
+	Shape string       `json:"shape"`
+	St    int          `json:"st"`
+	NT    int          `json:"nt"`
+	S     int          `json:"s"`
 }
 
 func closedRing(v [][2]int) [][2]int {
